@@ -18,6 +18,8 @@ thresholds are exceeded, (b) a CAM before T_GenCamMax + one check period has pas
 Interpretations (stated, because the sentence leaves them open):
 * spacing and the low-frequency rule are per activation period (``start`` resets them, like the service);
 * before the first CAM of an activation the 1 s + period bound runs from the later of start / first report;
+* "position data is available" = the latest report carries lat and lon; without it a CAM may still be sent (and must
+  then obey spacing / LF / content rules) but none is required;
 * "differ from the last CAM": a quantity counts only if both the report carried by the last CAM and the current
   report contain it; the distance is the geodesic distance, and values within 3 cm of 4 m (spherical vs.
   ellipsoidal earth differ by 0.3 %) or within 1e-9 of the other thresholds create no obligation;
@@ -125,6 +127,8 @@ class CamRules:
         ref_ms = self.last_cam_ms if self.last_cam_ms is not None else self.anchor_ms
         elapsed = ms - ref_ms
         if not cams:
+            if not ("lat" in self.report and "lon" in self.report):
+                return out             # "position data is available" does not hold: no obligation to send
             if self.last_cam_ms is not None and elapsed >= T_GEN_CAM_MIN:
                 must, why = dynamics_exceeded(self.report, self.last_cam_report)
                 if must:
